@@ -381,6 +381,36 @@ def call_builtin(ex, st, name, args, kwargs, node):
         if name == "log2_":
             return VReal(r_log2(as_real(args[0])))
         return VReal(r_pow(as_real(args[0]), as_real(args[1])))
+    if name == "bytes" and args and isinstance(args[0], (VRef, VStruct)):
+        return ex.call_method(st, args[0], "__bytes__", [], {})
+    if name in ("bytes", "bytearray") and args and isinstance(args[0], VSeq) and args[0].kind in ("array:I", "array:i"):
+        from . import streams
+        return streams.tobytes(ex, st, args[0])
+    if name in ("Path", "pathlib.Path", "str") and args and isinstance(args[0], VStr):
+        return args[0]
+    if name in ("i32_at", "i64_at"):
+        from . import streams
+        w = 4 if name == "i32_at" else 8
+        raw = streams.le_uint(args[0].comps[0], as_int(args[1]), w)
+        return VInt(z3.If(raw >= 2 ** (8 * w - 1), raw - 2 ** (8 * w), raw))
+    if name == "mode_of":
+        return ex.getattr(st, args[0], "_CountMinSketch__query_method")
+    if name == "default_mode":
+        c = args[0]
+        cname = c.name if isinstance(c, VClass) else (c.cls if isinstance(c, (VRef, VStruct)) else None)
+        mode = {"CountMeanSketch": "mean_query", "CountMeanMinSketch": "mean_min_query"}.get(cname, "min_query")
+        return VStr.const("method:" + mode)
+    if name in ("byte_of", "f32_byte"):
+        from . import streams
+        k = as_int(args[1])
+        if name == "byte_of":
+            return VInt(streams.digit(as_int(args[0]), k))
+        return VInt(streams.digit(streams.f32bits(as_real(args[0])), k))
+    if name in ("written", "f32_at"):
+        from . import streams
+        if name == "written":
+            return streams.stream_content(st, args[0])
+        return VReal(streams.f32val(streams.le_uint(args[0].comps[0], as_int(args[1]), 4)))
     if name in ("list", "bytes", "bytearray", "tuple"):
         if not args:
             return VSeq([z3.K(I, z3.IntVal(0))], z3.IntVal(0), TInt(), "list" if name == "list" else "bytes")
@@ -419,7 +449,7 @@ def call_builtin(ex, st, name, args, kwargs, node):
             return VSeq([z3.K(I, z3.IntVal(0))], z3.IntVal(0), t.elem, t.kind)
         init = args[1]
         if isinstance(init, VSeq):
-            if init.kind in ("bytes",) and tc.lit != "B":
+            if init.kind in ("bytes", "mmap"):
                 return array_from_bytes(ex, st, tc.lit, init, line)
             if isinstance(init.et, TInt) and not ex.spec and tc.lit != "B" or (tc.lit == "B" and init.kind != "bytes"):
                 k = z3.Int(fresh_name("x"))
@@ -532,6 +562,9 @@ def isinstance_model(ex, st, v, tnode):
         return VBool(res)
     if isinstance(v, VStream):
         return VBool(any(n in ("IOBase", "mmap") for n in names))
+    if isinstance(v, VStr) and any(n in ("IOBase", "mmap", "bytes", "bytearray", "memoryview") for n in names) \
+            and not any(n in ("str",) for n in names):
+        return VBool(False)          # a path (text) is none of the byte-carrying types
     if isinstance(v, VSeq):
         if v.kind == "bytes":
             return VBool(any(n in ("bytes", "bytearray", "memoryview", "ByteString") for n in names))
@@ -587,7 +620,8 @@ def random_model(ex, st, fn, args, line):
 
 
 def array_from_bytes(ex, st, tc, b: VSeq, line):
-    raise Unsupported("array(tc, bytes) outside the stream model")
+    from . import streams
+    return streams.frombytes(ex, st, tc, b, line)
 
 
 def value_method(ex, st, recv, name, args, kwargs, node):
@@ -619,7 +653,7 @@ def exec_with(ex, s, st):
 
 
 REAL_BUILTINS = {"f32", "ln", "exp_", "log2_", "pow_", "ceil_", "le_bytes", "be_bytes", "upd", "rem", "allkeys",
-                 "tcount", "tsize", "lcount", "nodup", "same", "undone_table", "undone_hand"}
+                 "tcount", "tsize", "lcount", "nodup", "same", "undone_table", "undone_hand", "written", "f32_at", "byte_of", "f32_byte", "i32_at", "i64_at", "default_mode", "mode_of"}
 
 
 def call_spec(ex, st, name, args, kwargs):
